@@ -9,3 +9,6 @@ ASSUMPTIONS = W.ASSUMPTIONS
 suites = W.suites
 classify = W.classify
 replay_case = W.replay_case
+
+MANIFEST_ADD = {"text": "Add-on Props/C10_cfg.v: the context object handed to a factory or constructor - an EMPTY multi-unit context included, to which units are attached later - is the object the handlers look units up in (`context or ModbusServerContext()` with Python's `or` taken literally; generated fact: no context / block / framer class defines __bool__ or __len__); tied by constructing every server class and calling every factory with an empty multi-unit context.",
+                "note": 'Truth values of user-defined subclasses are outside the generated facts (assumption listed).'}
